@@ -226,6 +226,47 @@ def s_kind(F, res):
             res.add([finding("S-KIND", key, w, "Param::Set is built outside the `%s` arm in Param::%s" % (var, m))])
         else:
             res.add([ok("S-KIND", key, w, "every Param::Set aggregate is dominated by the `%s` arm" % var)])
+        # S-INDEP: inside that arm the substitution depends on nothing but the presence of the value in the argument map:
+        # every branch that decides whether the Set is built tests the result of the lookup (`args.get(name)` is Some) - a
+        # condition on anything else (the state of the query, other parameters) makes the stage depend on what other stages
+        # have already done, i.e. on the order of application
+        key2 = "%s|substitution depends only on the presence of the value" % f["path"]
+        du = mir.DefUse(f)
+        offenders = []
+        for bi, s_ in sets:
+            if shared or not cfg.dominates(target, bi):
+                continue
+            region = cfg.reach_from(target)
+            for sb in sorted(region):
+                blk = f["blocks"][sb]
+                t = blk["t"]
+                if t["k"] != "switch" or blk["cleanup"] or not cfg.dominates(target, sb):
+                    continue
+                succ = mir.block_succs(blk)
+                reach_set = [x for x in succ if bi == x or bi in cfg.reach_from(x)]
+                if not reach_set or len(reach_set) == len(set(succ)):
+                    continue   # does not decide whether the Set is built
+                pl = mir.op_place(t["discr"])
+                src = mir.provenance(f, du, {"l": pl["l"], "p": []}) if pl is not None else []
+                # the scrutinee: discriminant of the lookup result (or of its cloned / as_ref'd copy), or contains_key
+                okk = False
+                for d in du.defs.get(pl["l"], []) if pl is not None else []:
+                    if d[0] != "call" and d[3]["rv"]["k"] == "discr" and d[3]["rv"].get("adt", "").endswith("ControlFlow"):
+                        okk = True   # `?`: an error of a nested call is propagated, not a condition on the substitution
+                    elif d[0] != "call" and d[3]["rv"]["k"] == "discr":
+                        o2 = mir.provenance(f, du, {"l": d[3]["rv"]["pl"]["l"], "p": []}, transparent_extra=("std::option::Option::<&T>::cloned", "std::option::Option::<T>::as_ref", "std::option::Option::<&T>::copied"))
+                        if o2 and all(x.kind == "call" and x.callee.split("::")[-1] in ("get", "remove", "get_key_value") for x in o2):
+                            okk = True
+                        if o2 and all(x.kind == "arg" and x.local == 1 for x in o2):
+                            okk = True   # the match on self itself
+                    elif d[0] == "call" and (d[3].get("callee") or "").split("::")[-1] in ("contains_key", "is_some", "is_none"):
+                        okk = True
+                if not okk:
+                    offenders.append(t.get("line"))
+        if offenders:
+            res.add([finding("S-INDEP", key2, where(f, offenders[0]), "in Param::%s whether the value is substituted also depends on a condition other than its presence in the argument map (line %s): applying this stage before or after the others gives different results" % (m, offenders[0]))])
+        else:
+            res.add([ok("S-INDEP", key2, w, "the only branches between the `%s` arm and Param::Set test the lookup result" % var)])
     # S-SETCONST: all Param::Set aggregates in the workspace wrap constants (or rebuild an existing Set)
     n = 0
     for f in F.fns.values():
@@ -284,9 +325,35 @@ def s_guard(F, res):
         n = (t.get("callee") or "").split("::")[-1]
         return n in MEMBER and ("Map" in (t.get("callee") or "") or "Map" in " ".join(t.get("gargs") or []) or "Map" in (t.get("resolved") or ""))
     ck = [bi for bi, t in mir.calls(f) if is_member(t)]
+    derived = []
+    du0 = mir.DefUse(f)
+    for bi, t in mir.calls(f):
+        if is_member(t):
+            # the map that is tested must be the argument map itself (a parameter / captured reference all the way up), not a
+            # copy derived from it (`args.iter().map(..lowercase..).collect()`): a key can then be "present" in the copy and
+            # absent from the map that apply_args receives
+            for o in mir.provenance(f, du0, t["args"][0], transparent_extra=("std::ops::Deref::deref",)):
+                if o.kind == "call":
+                    derived.append((t["line"], o.callee.split("::")[-1]))
     for c, cbi in clos.items():
-        if any(is_member(t) for _, t in mir.calls(F.fns[c])):
+        g = F.fns[c]
+        if any(is_member(t) for _, t in mir.calls(g)):
             ck.append(cbi)
+            dg = mir.DefUse(g)
+            for _, t in mir.calls(g):
+                if is_member(t):
+                    for o in mir.provenance(g, dg, t["args"][0], transparent_extra=("std::ops::Deref::deref",)):
+                        if o.kind == "call":
+                            derived.append((t["line"], o.callee.split("::")[-1]))
+                        elif o.kind == "arg" and o.local == 1 and o.proj and o.proj[0][1:].isdigit():
+                            # captured variable: what the owner captured
+                            for bj, sj, st in mir.stmts(f):
+                                if st["rv"]["k"] == "agg" and st["rv"].get("closure") == c:
+                                    idx = int(o.proj[0][1:])
+                                    if idx < len(st["rv"]["ops"]):
+                                        for o2 in mir.provenance(f, du0, st["rv"]["ops"][idx], transparent_extra=("std::ops::Deref::deref",)):
+                                            if o2.kind == "call":
+                                                derived.append((t["line"], o2.callee.split("::")[-1]))
     missing = [bi for bi, si, st in mir.stmts(f) if st["rv"]["k"] == "agg" and st["rv"].get("adt") == "tx3_resolver::Error" and st["rv"]["variant"] == "MissingTxArg"]
     missing_in_closure = [cbi for c, cbi in clos.items() if any(st["rv"]["k"] == "agg" and st["rv"].get("variant") == "MissingTxArg" for _, _, st in mir.stmts(F.fns[c]))]
     problems = []
@@ -300,6 +367,8 @@ def s_guard(F, res):
         problems.append("no membership test of the argument map for the reported parameters")
     if not missing and not missing_in_closure:
         problems.append("Error::MissingTxArg is never constructed")
+    if derived:
+        problems.append("the membership test (line %s) is made on a map produced by `%s(..)`, not on the argument map that apply_args receives: a reported parameter can pass the test and still be absent from the applied arguments" % derived[0])
     if not problems:
         for a in aa:
             if not any(cfg.dominates(x, a) for x in fp):
@@ -414,6 +483,7 @@ def run(ctx):
     res.rule("T1c", "container and blanket impls recurse with the same trait method on their elements")
     res.rule("T2", "Node impls other than Expression's never call Visitor::reduce directly; Expression's returns visitor.reduce(rebuilt)")
     res.rule("S-KIND", "Param::apply_X builds Param::Set only under the arm of the parameter kind it substitutes")
+    res.rule("S-INDEP", "inside its arm, Param::apply_X substitutes whenever the value is present: no other condition decides it")
     res.rule("S-SETCONST", "every Param::Set aggregate wraps a constant constructor or rebuilds an existing Set")
     res.rule("S-GUARD", "safe_apply_args: MissingTxArg for each absent reported parameter before apply_args; resolve_tx applies args only through it")
     res.rule("F-NORM", "names put into Param::ExpectValue/ExpectInput are lower-cased")
